@@ -21,6 +21,9 @@ ID = "C12"
 
 BASE = {"f1.txt": b"one\n", "m2.txt": b"two\n", "d": {"inner.txt": b"i\n"}, "h.html": worlds.HTML}
 KINDS = ["dangling", "fifo", "socket", "vanished", "eacces", "dotdot-name", "dotdir", "loop"]
+# faults at the operating-system seam: the k-th and every later stat() of the entry fails (it was there when the
+# directory was read and for the first k-1 looks); a sub-directory that may be read but not searched
+OS_KINDS = ["stat%d-%s" % (k, e) for k in (1, 2, 3, 4) for e in ("enoent", "eacces")] + ["unsearchable"]
 # dot-named variants: under the UMN handler a dot-file is read as a link file
 DOT_KINDS = ["dot-dangling", "dot-fifo", "dot-socket", "dot-vanished", "dot-eacces", "dot-loop"]
 POSITIONS = {"first": "0", "middle": "g", "last": "z"}
@@ -65,6 +68,8 @@ _ghosts = set()   # selectors listdir should invent
 _eacces = set()   # selectors whose stat fails with EACCES
 _eopen = set()    # selectors whose open fails with EACCES
 _patched = False
+_os_stat_fail = {}   # absolute path -> [calls so far, first failing call, errno]
+_os_prefix_fail = set()  # absolute directory paths below which every stat/listdir/open fails with EACCES
 
 
 def _patch():
@@ -100,6 +105,41 @@ def _patch():
     VFS_Real.open = open_
     VFS_Real.listdir = listdir
     VFS_Real.stat = stat
+    import builtins
+
+    def _os_fault(path):
+        try:
+            sp = os.fsdecode(path) if not isinstance(path, int) else None
+        except Exception:  # noqa
+            sp = None
+        if sp is None:
+            return
+        rec = _os_stat_fail.get(sp)
+        if rec is not None:
+            rec[0] += 1
+            if rec[0] >= rec[1]:
+                raise OSError(rec[2], os.strerror(rec[2]) + " (injected)", sp)
+        for pre in _os_prefix_fail:
+            if sp.startswith(pre + "/"):
+                raise PermissionError(errno.EACCES, "Permission denied (injected)", sp)
+
+    o_os_stat, o_os_lstat, o_os_listdir, o_builtin_open = os.stat, os.lstat, os.listdir, builtins.open
+
+    def os_stat(path, *a, **k):
+        _os_fault(path)
+        return o_os_stat(path, *a, **k)
+
+    def os_lstat(path, *a, **k):
+        _os_fault(path)
+        return o_os_lstat(path, *a, **k)
+
+    def os_listdir(path=".", *a, **k):
+        sp = os.fsdecode(path) if not isinstance(path, int) else None
+        if sp in _os_prefix_fail:
+            raise PermissionError(errno.EACCES, "Permission denied (injected)", sp)
+        return o_os_listdir(path, *a, **k)
+
+    os.stat, os.lstat, os.listdir = os_stat, os_lstat, os_listdir
     _patched = True
 
 
@@ -118,6 +158,16 @@ def _plant(root, d, kind, pos):
         if kind == "dir":
             os.makedirs(p)
             return name
+    if kind.startswith("stat") and "-" in kind and kind[4].isdigit():
+        rig.write_file(p, b"here for a while\n")
+        _os_stat_fail[p] = [0, int(kind[4]), errno.ENOENT if kind.endswith("enoent") else errno.EACCES]
+        return name
+    if kind == "unsearchable":
+        os.makedirs(p)
+        rig.write_file(os.path.join(p, "inner.txt"), b"i\n")
+        rig.write_file(os.path.join(p, "gophermap"), b"never readable\n")
+        _os_prefix_fail.add(p)
+        return name
     if kind in ("dotdot-pyg", "broken-pyg"):
         rig.write_file(p, b"raise RuntimeError('this module must never be imported')\n", mode=0o755)
         return name
@@ -206,6 +256,8 @@ def _run_case(hname, faults, zipmode=False, hide=False):
     _ghosts.clear()
     _eacces.clear()
     _eopen.clear()
+    _os_stat_fail.clear()
+    _os_prefix_fail.clear()
     w = rig.World({"t": {k: (dict(v) if isinstance(v, dict) else v) for k, v in BASE.items()}}, handlers=HANDLERS[hname], cachetime=0, tag="c12")
     bad = []
     try:
@@ -224,6 +276,8 @@ def _run_case(hname, faults, zipmode=False, hide=False):
             blocks = b"".join(b"Type=X\nPath=./" + n.encode() + b"\n\n" for n in sorted(names))
             rig.write_file(os.path.join(w.root, "t", ".names"), blocks)
         for p in PROTOS:
+            for rec in _os_stat_fail.values():
+                rec[0] = 0  # every request sees the entry appear and then go away
             data, tls = rig.request(p, "/t")
             r = w.serve(data, tls)
             if r.internal_error:
@@ -257,6 +311,8 @@ def _run_case(hname, faults, zipmode=False, hide=False):
         _ghosts.clear()
         _eacces.clear()
         _eopen.clear()
+        _os_stat_fail.clear()
+        _os_prefix_fail.clear()
         w.destroy()
     return bad
 
@@ -355,6 +411,11 @@ def run(ck):
                 cases.append(("dir", h, ((k, p),)))
     for k in KINDS:
         cases.append(("dir", "full", ((k, "middle"),)))
+    for k in OS_KINDS:
+        for h in ("umn", "dir", "full"):
+            for pos in POSITIONS:
+                cases.append(("dir", h, ((k, pos),)))
+        cases.append(("dir", "umn", ((k, "first"), ("fifo", "last"))))
     for k in META_KINDS:
         for h in ("umn", "dir", "full"):
             cases.append(("dir", h, ((k, "first"),)))
